@@ -86,9 +86,21 @@ def _run_one(i):
     except ValueError:
         pass
     try:
+        from .contracts import resv as _resv
+        _resv.PATH_SELECT[0], _resv.LAST_NPATHS[0] = 0, 1
         v = ob.run()
         if not isinstance(v, be.Verdict):
             raise TypeError(f"obligation {ob.id} returned {type(v).__name__}")
+        k_ = 1
+        while isinstance(v, be.Verdict) and v.status == be.PROVED and ob.expect == be.PROVED and k_ < _resv.LAST_NPATHS[0]:
+            # simulate() has several returning paths on this tree: the obligation is a statement about every one of them
+            _resv.PATH_SELECT[0] = k_
+            v2 = ob.run()
+            if isinstance(v2, be.Verdict) and v2.status != be.PROVED:
+                v2.detail = f"[returning path {k_ + 1} of {_resv.LAST_NPATHS[0]} of simulate()] " + (v2.detail or "")
+                v = v2
+            k_ += 1
+        _resv.PATH_SELECT[0] = 0
         if sx.ARG_DATA_WRITES and v.status == be.PROVED and ob.expect == be.PROVED:
             # default frame of every contract here: a function under contract stores nothing into caller-owned data
             # (arrays, tables, record arrays that existed when the call started) - on the unchanged tree none does.
